@@ -1,5 +1,6 @@
 import SkyllhModel.Proto
 import SkyllhModel.Model.LLH
+import SkyllhModel.Model.LLHR7
 open Proto LLH
 
 /-  requests (floats as IEEE bit patterns, lists comma separated, `-` = empty):
@@ -12,6 +13,8 @@ open Proto LLH
       chk  <opa> <N> <ns> <Rs>                    -> none | value   (llrChecked)
       rex  <opa> <N> <ns> <expr>                  -> none | as llr;  expr in prefix form: L <list> | P <expr> <expr> | S <zb> <s> <b>
       fld  {<parameter values>}                    -> per evaluation r (field recalculated) | k (kept): fieldRun from a fresh trial
+      msk  <strict 0/1> <opa> <c> <N> <ns> <Xi>   -> none | value, then np.any(m_unstable) (1/0), count_nonzero(m_unstable),
+                                                     slots written by pass 1, slots written by the scatter   (calcLogLambda, array level)
       trl  <opa> {T <n_events arg | -> <Rs> <keep> | E <ns>}   -> the values of the E steps (x = the code raises): trialRun
 -/
 def sumAbs (opa : Float) (N : Nat) (ns : Float) (Rs : List Float) : Float :=
@@ -71,6 +74,17 @@ def answer (line : String) : String :=
       fListD (fun (r : Option (List Float) × Bool) => if r.2 then "r" else "k") (fieldRun none (rest.map (pList pF)))
   | "trl" :: opa :: rest =>
       fListD (fun o => match o with | some v => fF v | none => "x") (trialRun (pF opa) none (parseTrialOps rest))
+  | ["msk", strict, opa, c, n, ns, xs] =>
+      let st := pB strict
+      let Xi := pList pF xs
+      let v := match calcLogLambda st (pF opa) (pF c) (pN n) (pF ns) Xi with
+        | some v => fF v
+        | none => "none"
+      let info := unstableInfo st (pF opa) (pF ns) Xi
+      let alphaI := Xi.map (pF ns * ·)
+      let m := alphaI.map (stableMask st (pF opa))
+      let w1 := ((pass1 m alphaI).filter Option.isSome).length
+      s!"{v} {fB info.1} {info.2} {w1} {(gatherU m alphaI).length}"
   | ["counts", narg, nraw, nsel] =>
       let a : Option Nat := if narg == "-" then none else some (pN narg)
       let c := trialCounts a (pN nraw) (pN nsel)
